@@ -328,6 +328,7 @@ def correspondence(ctx):
     stream_errors(ctx, batch, rng)
     batch.flush()
     stream_build(ctx, rng)
+    composite_cdf(ctx)
 
 
 # --------------------------------------------------------------------------------------------------------
@@ -546,9 +547,51 @@ def ms_configs(ctx, rng):
                 yield S, sd, nst
 
 
+def composite_cdf(ctx, report=None):
+    """`CompositeCDFTransform(squash, cdf)` is the composite [squash, cdf, InverseTransform(squash)] of ONE squashing object: after the
+    squashing transform's parameters change (a learnt temperature trained for a while) it is still squash -> cdf -> squash^-1 of the
+    CURRENT squash, in both directions, with summed log-dets"""
+    import nflows.transforms as T
+    g = torch.Generator().manual_seed(ctx.seed + 8081)
+    for name, mk_cdf in (('LinearCDF', lambda: T.PiecewiseLinearCDF([3], num_bins=4)), ('RQCDF', lambda: T.PiecewiseRationalQuadraticCDF([3], num_bins=3))):
+        for when in ('fresh', 'after-update'):
+            torch.manual_seed(ctx.seed + 5)
+            squash = T.Sigmoid(temperature=1.3, learn_temperature=True)
+            cdf = mk_cdf()
+            with torch.no_grad():
+                for q in cdf.parameters():
+                    q.add_(0.5 * torch.randn(q.shape, generator=g))
+            comp = T.CompositeCDFTransform(squash, cdf).double()
+            if when == 'after-update':
+                with torch.no_grad():
+                    squash.temperature.mul_(1.9)            # what a few optimiser steps do to the squashing transform's own parameter
+            x = 1.5 * torch.randn(4, 3, generator=g, dtype=torch.float64)
+            why = None
+            try:
+                with torch.no_grad():
+                    y, ld = comp(x)
+                    h, l1 = squash(x); h, l2 = cdf(h); want, l3 = squash.inverse(h)
+                    if not (torch.allclose(y, want, rtol=0, atol=1e-12) and torch.allclose(ld, l1 + l2 + l3, rtol=0, atol=1e-10)):
+                        why = 'forward is not squash -> cdf -> squash^-1 of the current squashing transform'
+                    else:
+                        xb, ldb = comp.inverse(y)
+                        if not (torch.allclose(xb, x, rtol=0, atol=1e-8) and torch.allclose(ldb, -ld, rtol=0, atol=1e-8)):
+                            why = 'inverse does not undo forward'
+            except Exception as e:
+                why = 'raised %s' % W.err_kind(e)
+            case = {'wrapper': 'CompositeCDFTransform', 'cdf': name, 'when': when, 'x': x.reshape(-1).tolist()}
+            if report is None:
+                ctx.case(key=('composite-cdf', name, when), branch='composite-cdf/' + when, nontrivial=True)
+                if why:
+                    ctx.disagree('C08/composite-cdf', case, why, 'squash, cdf, squash^-1 chained by hand', why)
+            elif why:
+                report('CompositeCDFTransform(Sigmoid(learn_temperature), %s), %s: %s' % (name, when, why), case, {'wrapper': 'composite-cdf', 'symptom': 'not-the-chain'})
+
+
 def search(ctx):
     rng = random.Random(ctx.seed + 808)
     seen = set()
+    composite_cdf(ctx, report=lambda what, case, match: ctx.fail(what, case, match=match) if match['symptom'] not in seen and not seen.add(match['symptom']) else None)
     for (S, sd, nst) in ms_configs(ctx, rng):
         try:
             r = oracle_multiscale(S, sd, nst)
